@@ -46,16 +46,36 @@ def key(rng, ncls):
     return rng.randint(1, ncls), rng.randint(1, 2)
 
 
+def put_args(rng, c, p, v, dv, puts):
+    """arguments of the next put; appends (c, p, value) to puts and returns (c, p, highest fresh value so far).
+    With a value destructor every put brings a fresh value object; without one, a third of the puts store NULL, a
+    value object used before, or repeat an earlier put exactly (same key object, same value object)."""
+    r = rng.random()
+    if dv or r < 0.67 or not puts:
+        v += 1
+        puts.append((c, p, v))
+    elif r < 0.77:
+        puts.append((c, p, 0))
+    elif r < 0.87:
+        puts.append((c, p, rng.choice(puts)[2]))
+    else:
+        c, p, old = rng.choice(puts[-6:])
+        puts.append((c, p, old))
+    return c, p, v
+
+
 def lh_random(rng, nops):
     ncls = rng.choice([1, 2, 3, 4, 6])
-    lines = ["RESET lht %d %d %d %d" % (rng.choice([0, 1, 2, 8, 32]), rng.randint(0, 1), rng.randint(0, 1), rng.randint(0, 2))]
+    dv = rng.randint(0, 1)
+    lines = ["RESET lht %d %d %d %d" % (rng.choice([0, 1, 2, 8, 32]), rng.randint(0, 1), dv, rng.randint(0, 2))]
     v = 0
+    puts = []
     for _ in range(nops):
         r = rng.random()
         c, p = key(rng, ncls)
         if r < 0.45:
-            v += 1
-            lines.append("PUT %d %d %d" % (c, p, v))
+            c, p, v = put_args(rng, c, p, v, dv, puts)
+            lines.append("PUT %d %d %d" % (c, p, puts[-1][2]))
         elif r < 0.58:
             lines.append("FIND %d %d" % (c, p))
         elif r < 0.72:
@@ -74,14 +94,16 @@ def cache_random(rng, nops):
     kind = rng.choice(["fifo", "lifo", "lru", "lru"])
     mx = rng.choice([1, 1, 2, 2, 3, 4, 8])
     ncls = rng.choice([min(6, mx + 1), min(6, mx + 2), 6, min(6, max(1, mx))])
-    lines = ["RESET %s %d %d %d %d" % (kind, mx, rng.randint(0, 1), rng.randint(0, 1), rng.randint(0, 2))]
+    dv = rng.randint(0, 1)
+    lines = ["RESET %s %d %d %d %d" % (kind, mx, rng.randint(0, 1), dv, rng.randint(0, 2))]
     v = 0
+    puts = []
     for _ in range(nops):
         r = rng.random()
         c, p = key(rng, ncls)
         if r < 0.48:
-            v += 1
-            lines.append("PUT %d %d %d" % (c, p, v))
+            c, p, v = put_args(rng, c, p, v, dv, puts)
+            lines.append("PUT %d %d %d" % (c, p, puts[-1][2]))
         elif r < 0.70:
             lines.append("FIND %d %d" % (c, p))
         elif r < 0.82:
@@ -106,15 +128,15 @@ def run(ctx):
                 "at least 4 puts and one find or remove")
     ctx.assumptions += [
         "allocation cannot fail (aws_mem_acquire aborts on OOM), so put cannot fail",
-        "user hash and equality are consistent (both look at the key's class only); value objects are fresh per put",
+        "user hash and equality are consistent (both look at the key's class only); with a value destructor installed value objects are fresh per put, without one they may repeat or be NULL",
         "a replaced entry whose key is the same object as the new key is not 'displaced': that key object stays in the table",
         "state is observed through the public iteration list and element count only (no extra lookups on an lru cache)",
         "model constants: 3 classes x 2 key objects, max <= 2 (quick) / 3 (thorough) in the exhaustive model",
     ]
     ctx.mc("LinkedHash", "LinkedHashMC", "MC_thorough.cfg" if thorough else "MC.cfg", timeout=3000, xmx="16g",
-           required_actions=["LinkedHashMC!" + a for a in ("MCPut", "MCFind", "MCFindMove", "MCRemove", "MCClear", "MCMoveToEnd")])
+           required_actions=["LinkedHashMC!" + a for a in ("MCPut", "MCPutAgain", "MCFind", "MCFindMove", "MCRemove", "MCClear", "MCMoveToEnd")])
     ctx.mc("Cache", "CacheMC", "MC_thorough.cfg" if thorough else "MC.cfg", timeout=3000, xmx="16g",
-           required_actions=["CacheMC!" + a for a in ("MCPut", "MCFind", "MCRemove", "MCClear", "MCUseLru", "MCGetMru")])
+           required_actions=["CacheMC!" + a for a in ("MCPut", "MCPutAgain", "MCFind", "MCRemove", "MCClear", "MCUseLru", "MCGetMru")])
     cap = 600 if not thorough else 20000
     lh_scripts, _ = tlc.gen_scripts("LinkedHash", "LinkedHashMC", "Gen.cfg", ctx.outdir, num=300 if not thorough else 5000,
                                     depth=45, seed=ctx.seed, workers=4)
